@@ -865,7 +865,18 @@ func c19Exec(r *sim.Run, sci interface{}) {
 			// order the runtime picks: pass a gate before anything observable
 			r.Yield("api-returned")
 		}
-		r.Eventf("%s %s %s %s=%q %s -> rev %d", who, via, op.Kind, op.Key, op.Val, res, env.store.Rev())
+		what := fmt.Sprintf("%s=%q", op.Key, op.Val)
+		if op.Kind == "txn" {
+			what = ""
+			for _, kv := range op.KVs {
+				if kv.Val == nil {
+					what += kv.Key + "=<del> "
+				} else {
+					what += fmt.Sprintf("%s=%q ", kv.Key, *kv.Val)
+				}
+			}
+		}
+		r.Eventf("%s %s %s %s %s -> rev %d", who, via, op.Kind, what, res, env.store.Rev())
 	}
 
 	if sc.Bulk > 0 {
